@@ -172,9 +172,9 @@ TARGETS = [b"/", b"/a", b"/a/b?x=1&y=2", b"/a%20b", b"/a#frag", b"//x/y", b"/\xc
 HOSTS = [b"example.com", b"h.example:8080", b"[::1]", b"x"]
 
 
-def gen_headers(rng, extra=None):
+def gen_headers(rng, extra=None, keep=False):
     hs = []
-    if rng.random() < 0.92:
+    if keep or rng.random() < 0.95:
         hs.append((b"Host", rng.choice(HOSTS)))
     for _ in range(rng.randint(0, 4)):
         name = rng.choice([b"X-A", b"Accept", b"User-Agent", b"x-b", b"Cookie", b"X-Long", b"Content-Type", b"ETag"])
@@ -182,8 +182,11 @@ def gen_headers(rng, extra=None):
         hs.append((name, val))
     r = rng.random()
     if r < 0.15:
-        hs.append((b"Connection", rng.choice([b"close", b"keep-alive", b"Keep-Alive, Upgrade", b"upgrade", b"close, keep-alive", b" , ,close", b"\xc3\xa9, close", b"x"])))
-    if r > 0.9:
+        if keep:
+            hs.append((b"Connection", rng.choice([b"keep-alive", b"Keep-Alive", b"x", b"keep-alive, x"])))
+        else:
+            hs.append((b"Connection", rng.choice([b"close", b"keep-alive", b"Keep-Alive, Upgrade", b"upgrade", b"close, keep-alive", b" , ,close", b"\xc3\xa9, close", b"x"])))
+    if r > 0.9 and not keep:
         hs.append((b"Upgrade", rng.choice([b"websocket", b"WebSocket", b"tcp", b"h2c", b""])))
         hs.append((b"Connection", b"Upgrade"))
     if rng.random() < 0.1:
@@ -219,14 +222,17 @@ def rand_bytes(rng, n):
     return bytes(rng.randrange(256) for _ in range(n))
 
 
-def gen_request(rng):
-    """One valid-by-construction request (most of the time). Returns bytes."""
-    method = rng.choice(METHODS)
+def gen_request(rng, keep=False):
+    """One valid-by-construction request (most of the time). keep=True: a request after which the
+    connection stays open (so that a pipelined successor is legitimate). Returns bytes."""
+    method = rng.choice(METHODS[:-1] if keep else METHODS)
     if method == b"CONNECT":
         target = rng.choice([b"h.example:443", b"[::1]:80", b"a:b", b"x"])
     else:
-        target = rng.choice(TARGETS[:10]) if rng.random() < 0.85 else rng.choice(TARGETS)
-    version = rng.choice([b"HTTP/1.1"] * 8 + [b"HTTP/1.0", b"HTTP/2.0", b"HTTP/0.9"])
+        target = rng.choice(TARGETS[:10]) if (keep or rng.random() < 0.9) else rng.choice(TARGETS)
+        if target == b"*" and method != b"OPTIONS":
+            target = b"/star"
+    version = b"HTTP/1.1" if keep else rng.choice([b"HTTP/1.1"] * 8 + [b"HTTP/1.0", b"HTTP/2.0", b"HTTP/0.9"])
     kind = rng.choice(["none", "none", "len", "len", "chunked", "chunked", "len0"])
     if method == b"CONNECT":
         kind = "none"
@@ -241,7 +247,7 @@ def gen_request(rng):
         trailers = [(b"X-T", b"1")] * rng.randint(0, 2) if rng.random() < 0.4 else None
         body = chunked_body(rng, pieces, trailers, ext=rng.random() < 0.4)
         extra.append((b"Transfer-Encoding", rng.choice([b"chunked", b"Chunked", b"gzip, chunked", b" chunked "])))
-    hs = gen_headers(rng, extra)
+    hs = gen_headers(rng, extra, keep)
     head = method + b" " + target + b" " + version + b"\r\n"
     for k, v in hs:
         head += k + rng.choice([b": ", b":", b":  ", b":\t"]) + v + b"\r\n"
@@ -251,11 +257,11 @@ def gen_request(rng):
 def gen_stream(rng):
     n = rng.choice([1, 1, 1, 2, 2, 3, 4])
     s = b""
-    for _ in range(n):
+    for i in range(n):
         if rng.random() < 0.15:
             s += b"\r\n" * rng.randint(1, 2)
-        s += gen_request(rng)
-    if rng.random() < 0.1:
+        s += gen_request(rng, keep=(i < n - 1))
+    if rng.random() < 0.06:
         s = s[: rng.randint(0, len(s))]        # truncated stream
     return s
 
